@@ -28,6 +28,18 @@ def envelopeB (a b m : Int) : Bool :=
 def IsResidueOf (f a b m : Int) : Prop := 0 ≤ f ∧ f < m ∧ m ∣ (b * f - a)
 def isResidueOfB (f a b m : Int) : Bool := decide (0 ≤ f) && decide (f < m) && decide ((b * f - a) % m = 0)
 
+/-- a reduced solution within the bounds the code documents ("|num| < k and 0 <= den <= m/k") -/
+def Solution (f m k n d : Int) : Prop :=
+  m ∣ (n - d * f) ∧ (n.natAbs : Int) < k ∧ 0 < d ∧ d * k ≤ m ∧ Int.gcd n d = 1
+
+def solutionB (f m k n d : Int) : Bool :=
+  decide ((n - d * f) % m = 0) && decide ((n.natAbs : Int) < k) && decide (0 < d) && decide (d * k ≤ m) && Int.gcd n d == 1
+
+/-- brute force over the whole (finite) box: does any reduced solution exist?  (driver, small m only) -/
+def existsSolutionB (f m k : Int) : Bool :=
+  (List.range (m / k).toNat).any fun d0 =>
+    (List.range (2 * k.toNat)).any fun n0 => solutionB f m k ((n0 : Int) - k + 1) ((d0 : Int) + 1)
+
 /-! ### polynomial checker (list polynomials over Z/p) -/
 
 /-- N ≡ D·P (mod M), deg N ≤ dk, D ≠ 0, and gcd(N,D) constant when a reduced fraction is requested -/
@@ -35,5 +47,36 @@ def polySoundB (pr : Int) (p m : LPoly) (dk : Int) (reduce : Bool) (n d : LPoly)
   let diff := lsub pr (lreduce pr n) (lmul pr (lreduce pr d) (lreduce pr p))
   (ldivmod pr diff m).2.isEmpty && decide (ldeg n ≤ dk) && !(lreduce pr d).isEmpty
     && (!reduce || decide (ldeg (lgcd pr (lreduce pr n) (lreduce pr d)) ≤ 0))
+
+/-- bounds tried by the widening loop: (k+1)·2^i < f, restricted to those ≤ m -/
+def widenBounds (k f m : Int) : Nat → Int → List Int
+  | 0, _ => []
+  | n + 1, b => if b < f then (if b ≤ m then [b] else []) ++ widenBounds k f m n (b * 2) else []
+
+/-- what the completeness theorems say about a reported failure, decided by brute force (driver, small m):
+    no reduced solution within `k`, nor (with widening) within any bound that was tried -/
+def failureExactB (f m k : Int) (rc : Bool) : Bool :=
+  !existsSolutionB f m k &&
+    (!rc || (widenBounds k f m 64 (k + 1)).all (fun b => !existsSolutionB f m b))
+
+/-- the full polynomial contract proved in Props/C11 (`poly_ratrecon_full`, `poly_ratreconcheck_exact`) -/
+def polyFullB (pr : Int) (p m : LPoly) (dk : Int) (reduce : Bool) (n d : LPoly) : Bool :=
+  polySoundB pr p m dk reduce n d && decide (ldeg d ≤ ldeg m - dk) && decide (ldeg n + ldeg d < ldeg m)
+    && (!reduce || (decide (ldeg (lgcd pr (lreduce pr d) (lreduce pr m)) ≤ 0) && llead (lreduce pr d) == 1))
+
+/-- all coefficient lists of a given length over Z/pr -/
+def allLists (pr : Nat) : Nat → List LPoly
+  | 0 => [[]]
+  | n + 1 => (allLists pr n).flatMap (fun l => (List.range pr).map (fun (c : Nat) => Int.ofNat c :: l))
+
+/-- does a fraction A/B ≡ P (mod M) with gcd(B,M) = 1, deg A ≤ dk, deg B < deg M − dk (deg A < dk when deg P = dk) exist?
+    brute force over all B (driver, small fields and degrees only) -/
+def existsPolySolutionB (pr : Int) (p m : LPoly) (dk : Int) : Bool :=
+  (allLists pr.toNat (ldeg m - dk).toNat).any fun b =>
+    let b' := lnorm b
+    !b'.isEmpty &&
+      (let a := (ldivmod pr (lmul pr b' (lreduce pr p)) m).2
+       decide (ldeg a ≤ dk) && (decide (ldeg a < dk) || decide (ldeg (lreduce pr p) ≠ dk)) &&
+         decide (ldeg (lgcd pr b' (lreduce pr m)) ≤ 0))
 
 end Givaro.Spec.RatRecon
